@@ -44,13 +44,16 @@ def valid_utf8(b):
 def gen(rng, tier):
     out = []
     sch = lg.rich_scheme()
-    g = lg.Gen(rng, sch, features=("index", "each", "quant", "oneof", "call", "vec", "mapbool", "inlist", "regex"),
-               max_depth=3)
+    g = lg.Gen(rng, sch, features=("index", "each", "quant", "oneof", "call", "vec", "mapbool", "inlist"), max_depth=3)
+    # with `matches` / `wildcard` comparisons: only for the families that leave the literals as generated (a
+    # mutated regex literal leaves the regex subset of the model, see C11)
+    g_re = lg.Gen(rng, sch, features=("index", "each", "quant", "oneof", "call", "vec", "mapbool", "inlist", "regex"),
+                  max_depth=3)
     n = 2500 if tier == "quick" else 70000
     # every well-formed filter cut after each of its tokens (an operator, an opening bracket, a comma ... followed
     # by the end of the input), with and without trailing white space
     for i in range(n // 10):
-        e = g.gen_filter()
+        e = g_re.gen_filter()
         toks = lg.render_lexpr(sch, e, lg.Layout()).split(" ")
         for k in range(1, len(toks)):
             cut = " ".join(toks[:k])
